@@ -28,7 +28,7 @@ def fmtDecv (extra : List Bytes) (bs : Bytes) : String :=
     "dec=ok:" ++ (fmtClaims c).replace " " ";" ++ " " ++ acc ++ " " ++ fmtObs c
 
 def opDecv (args : List String) : String :=
-  match args with
+  match (if args.isEmpty then [""] else args) with
   | [h] => match unhex? h with
     | some bs => fmtDecv [] bs
     | none => "bad-op"
